@@ -60,6 +60,9 @@ ASSUMPTIONS = [
     "batch-padded mapping-format tokenizer, whose rows are checked against the output for their own chunk)",
     "columns have at least one row (an empty column raises in every branch; outside the property)",
     "stub outputs are dyadic floats / small ints, so float32 round-trips are exact",
+    "raise demands (see RAISE_DEMANDS): none.  For an image cell that cannot be opened the oracle accepts a raise OR one "
+    "image per row with row i = forward_embed's output for the i-th image (a placeholder image is accepted, a dropped row "
+    "is not); such cases are not compared with the Coq model",
     "'called only with lists of Python strings (never a float or None)' is a typing fact of the Coq model "
     "(arg_lists : list (list string)), not a theorem about mapper.py; for the real code it is OBSERVED by this harness "
     "on every run: the stubs record the raw argument objects and the oracle requires type(args) is list and "
@@ -99,6 +102,23 @@ CLAUSES = [
                    "convert_to_tensor_frame(df2)"]),
 ]
 
+# FALSE-ALARM audit of the oracle's "must raise" demands: each with the words of the statement that back it.
+RAISE_DEMANDS = [
+    ("unopenable-image:row-not-covered:<kind> (formerly a bare must-raise)",
+     "NOT a raise demand.  Backed by 'covering the column's rows exactly once, in row order' and 'row i of the resulting "
+     "embedding ... is the callable's output for row i': the oracle accepts a raise OR one image per row of every chunk "
+     "with row i = forward_embed's output for the i-th image.  A rewrite that substitutes a placeholder image for an "
+     "unopenable path is ACCEPTED: the statement speaks of the user's callable (here forward_embed) and cannot say which "
+     "image an unopenable path denotes; what it excludes is a row that is skipped, duplicated or shifted"),
+    ("nonlist-arg:*, nonstr-arg:*", "backed by 'called only with lists of Python strings -- a missing cell is passed as its "
+                                    "string rendering, never as a float or None' (a type demand, not a raise demand)"),
+    ("raises:*, history-aborted, result-unreadable, column-missing:* are must-NOT-raise demands",
+     "backed by 'row i of the resulting embedding or token tensors is the callable's output for row i's text' for every "
+     "column in the quantifier (n >= 1)"),
+    ("empty column / batch_size 0 / malformed tokenizer output (the code raises)", "NOT backed and never generated; the Coq "
+     "examples c16_ex_empty_column_raises / c16_calls_unguarded_refuted describe the model only"),
+]
+
 # Every raise / assert / try-except / special-case branch / dtype cast of the anchored code (mapper.py embedder and
 # tokenizer mappers, config/image_embedder.py, dataset.py _get_mapper / config canonicalisation), the generator kind that
 # reaches it (required by sanity() unless marked n/a) and the oracle key that notices if it is removed, loosened or made
@@ -122,7 +142,7 @@ ERROR_PATHS = [
     ("mapper.py: embedder is None -> np.stack(ser.values).astype(dtype)", "n/a: plain `embedding` stype, property C01", "-"),
     ("image_embedder.py: Image.open(path) raises for a missing / unreadable / non-image path (no try/except)",
      "unopenable: nonexistent / directory / nonimage / missing cell at first / middle / last row",
-     "no-raise:unopenable-image:<kind>, result-unreadable"),
+     "unopenable-image:row-not-covered:<kind>, result-unreadable"),
     ("image_embedder.py: image.convert('RGB')", "non_rgb_file (grey-scale and RGBA PNGs)", "image-mode, image-embed-args"),
     ("image_embedder.py: one image per path, duplicates included", "real_images repeated/*", "image-embed-args, image-embed-calls"),
     ("dataset.py _get_mapper: config looked up by column name, one mapper per column and call",
@@ -857,18 +877,34 @@ def oracle_frame(case, obs):
                 return dict(key=f"nonstr-arg:{st}", what=f"the {st} callable of column {col['name']!r} received a "
                             f"{bad[0]['nonstr']} ({bad[0]['repr']}) instead of a string", observed=call)
     # a real-image column with a cell that cannot be opened: the clean behaviour class is "raises"
+    # a real-image column with a cell that cannot be opened.  The statement does not demand a raise; it demands
+    # "covering the column's rows exactly once" and "row i ... is the callable's output for row i".  So: EITHER the
+    # conversion raises, OR forward_embed got exactly one image per row of each chunk (whatever image stands in for
+    # the unopenable cell; the files that can be opened must be the right ones) and the result has n rows with row i =
+    # forward_embed's output for the i-th image it was given.  Dropping the row is the violation.
     bad = [c for c in case["cols"] if c.get("bad_cell")]
-    if bad:
-        raised = "exc" in obs or all("exc" in obs["cols"][c["name"]] for c in bad)
-        if raised:
-            return None
-        c = bad[0]
+    if bad and ("exc" in obs or all("exc" in obs["cols"][c["name"]] for c in bad)):
+        return None
+    for c in bad:
         rec = obs["cols"][c["name"]]
-        return dict(key=f"no-raise:unopenable-image:{c['bad_cell']['kind']}",
-                    what=f"column {c['name']!r} holds a cell that cannot be opened as an image ({c['bad_cell']['kind']}, "
-                         f"row {c['bad_cell']['pos']}) but the conversion returned: {rec.get('num_rows')} rows for "
-                         f"{case['n']} cells, forward_embed saw {rec.get('embed_sizes')} images",
-                    observed=rec.get("rows"))
+        want = py_chunks(rendered(c), c["batch_size"])
+        pos, ids = c["bad_cell"]["pos"], rec.get("embed_ids") or []
+        flat = [i for ch in ids for i in ch]
+        shape_ok = [len(ch) for ch in ids] == [len(w) for w in want]
+        ids_ok = shape_ok and all(flat[r] == img_id(x) for r, x in enumerate(rendered(c)) if r != pos)
+        rows_ok = shape_ok and rec.get("num_rows") == case["n"] and \
+            rec.get("rows") == [jrow(img_vals(k, c["w"])) for k in flat]
+        if not (ids_ok and rows_ok):
+            return dict(key=f"unopenable-image:row-not-covered:{c['bad_cell']['kind']}",
+                        what=f"column {c['name']!r} holds a cell that cannot be opened as an image ({c['bad_cell']['kind']}, "
+                             f"row {pos}); the conversion neither raised nor covered every row: {rec.get('num_rows')} result "
+                             f"rows for {case['n']} cells, forward_embed saw {rec.get('embed_sizes')} images for chunks of "
+                             f"{[len(w) for w in want]}", observed=rec.get("rows"))
+    if bad:
+        rest = [c for c in case["cols"] if not c.get("bad_cell")]
+        if not rest:
+            return None
+        case = dict(case, cols=rest)          # the other columns are judged as usual
     rx = obs.get("read_exc") or next((obs["cols"][c["name"]]["read_exc"] for c in case["cols"]
                                       if "read_exc" in obs["cols"][c["name"]]), None)
     if rx:
